@@ -510,8 +510,10 @@ def keepalive_reuse_scenario(run, e4, sc):
     v = []
     info = {}
     wc = sc["class"]
-    srv = e4.Server("c18", worker_class=wc, workers=1, settings={"max_requests": 3, "keepalive": 5, "graceful_timeout": 5, "timeout": 30},
-                    bind="tcp")
+    settings = {"max_requests": 3, "keepalive": 5, "graceful_timeout": 5, "timeout": 30}
+    if wc == "gthread":
+        settings["threads"] = 2         # the request in flight and the one that reaches the limit run on two handler threads
+    srv = e4.Server("c18", worker_class=wc, workers=1, settings=settings, bind="tcp")
     try:
         srv.start()
         if not srv.wait_workers(1, 25) or not srv.wait_listening(5):
@@ -523,10 +525,11 @@ def keepalive_reuse_scenario(run, e4, sc):
         res = {}
 
         def slow():
-            res["r2"] = e4.request(srv.addr, "/sleep/1.0", sock=a, close=False, timeout=10)
+            res["r2"] = e4.request(srv.addr, "/nap/1.0/kr", sock=a, close=False, timeout=10)
         t = threading.Thread(target=slow, daemon=True)
         t.start()
-        time.sleep(0.3)
+        if not srv.wait_phase("nap kr", 8):
+            return v, "the slow request was not entered", info
         rb = e4.request(srv.addr, "/pid", timeout=5)          # third request: reaches max_requests on another connection
         t.join(12)
         r2 = res.get("r2")
@@ -540,7 +543,7 @@ def keepalive_reuse_scenario(run, e4, sc):
             r3 = e4.request(srv.addr, "/pid", sock=a, close=False, timeout=6)
             info["next_on_same_connection"] = r3["outcome"]
             if r3["outcome"] != "ok":
-                v.append(("keepalive-connection-dropped-at-recycle", "%s: the response to a request in flight at the limit announced "
+                v.append(("keepalive-connection-dropped-at-recycle" + ("/in-flight-on-another-thread" if wc == "gthread" else ""), "%s: the response to a request in flight at the limit announced "
                           "keep-alive, the client's next request on that connection -> %s" % (wc, r3["outcome"])))
             else:
                 run.count("live_keepalive_reuse_checks")
@@ -814,7 +817,7 @@ def live_scenarios(tier, seed):
     # a sync worker with two listeners (it then polls them in a different loop), connections waiting on both
     out.append({"class": "sync", "workers": 2, "max_requests": rng.randint(2, 4), "jitter": rng.randint(0, 1), "concurrency": 10,
                 "requests": 200, "bind": "both"})
-    for wc in ("gevent", "eventlet"):
+    for wc in ("gevent", "eventlet", "gthread"):
         out.append({"class": wc, "kind": "keepalive-reuse", "workers": 1, "max_requests": 3, "jitter": 0, "concurrency": 2, "requests": 4})
     # a request that needs seconds is in flight when another one reaches the limit (every concurrent class)
     for wc in ("gevent", "eventlet", "gthread"):
